@@ -686,11 +686,11 @@ func runMesh(bi int, b behaviour, le *logrus.Entry, rows *[]map[string]any) {
 			if lockstep {
 				g := m.nodes[s.N].gate
 				if s.A == "itera" {
-					if !g.waitParked("top", 5*time.Second) {
+					if !g.waitParked("top", 15*time.Second) {
 						vio.Fatal("lockstep: node %s never reached the top of its loop", s.N)
 					}
 					g.release()
-					if !g.waitParked("break", 5*time.Second) {
+					if !g.waitParked("break", 15*time.Second) {
 						vio.Fatal("lockstep: node %s never reached the hold-break", s.N)
 					}
 				} else {
